@@ -58,14 +58,15 @@ Proof.
   destruct (chain_nth H _ _ _ _ _ _ _ _ HchC Hn) as (w & P & E).
   replace (0 + N.of_nat (N.to_nat (k - 1)) + 1) with k in P by lia.
   exists e, w. split; [reflexivity|]. split; [exact P|].
-  destruct P as (R & Es & _).
+  destruct P as (R & Es & Hid & _).
   split; [|split; [|exact E]].
   - unfold read_tx.
     destruct (N.eqb_spec k 0) as [|_]; [lia|].
     destruct (N.ltb_spec (s_inmem s) k) as [|_]; [lia|].
     destruct (N.ltb_spec (s_committed s) k) as [|_]; [lia|]. cbn [orb].
     unfold clog_entry. destruct (N.eqb_spec k 0) as [|_]; [lia|].
-    rewrite <- clogC_nth by lia. rewrite Hn. unfold read_at. rewrite R, Es, N.eqb_refl. reflexivity.
+    rewrite <- clogC_nth by lia. rewrite Hn. unfold read_at. rewrite R, Es, N.eqb_refl.
+    unfold check_id. cbn [bind]. rewrite Hid, N.eqb_refl. reflexivity.
   - apply tl_read_some in R. destruct R as [_ Hin]. eapply Forall_forall in i_wf; eauto.
 Qed.
 
